@@ -65,6 +65,8 @@ TEXT = {
             "escape test is an over-approximation for closures but does not follow writes through receivers and pointer "
             "parameters), and nothing static stands for ReadsVisible. The model side of "
             "the `conc` stream is the constant verdict `ok`.",
-    "technique": "Lean 4 proof (invariant preserved by every step, induction on the schedule) + go/ssa fact extraction checked by "
-                 "`decide` + race-detector differential runs (concurrent vs sequential)",
+    "technique": "Lean 4 proof about the interleaving model (invariant preserved by every step, induction on the schedule) + source facts "
+                 "re-extracted by translator T3 (go/ssa) on every run and checked by `decide` (no_shared_writes, global_calls_audited: a "
+                 "necessary condition of the ownership premise, which the theorems assume) + race-detector differential runs (concurrent vs "
+                 "sequential) on the implementation",
 }
